@@ -169,6 +169,9 @@ def run(ctx):
         ("text2", "NsqdHttp_text2.cfg", 1 if quick else 3, 1 if quick else 3),
         ("bin", "NsqdHttp_bin.cfg" if quick else "NsqdHttp_bin_thorough.cfg", 1 if quick else 2, 1 if quick else 2),
         ("seq", "NsqdHttp_seq.cfg" if quick else "NsqdHttp_seq_thorough.cfg", 2 if quick else 1, 2),
+        # the same alphabet from a registry that already has topic t1 with channel c1: every pair of requests there
+        # (e.g. a deferred publish, then /channel/empty: everything the channel holds goes, queued or not)
+        ("seq1", "NsqdHttp_seq1.cfg", 1, 1),
     ]
     reported_a = set()
     for what, cfg, variants, tvariants in plans:
